@@ -290,7 +290,11 @@ def check(case, rec=None):
             fails.append(exc_failure("indexer()", ix))
         # the same count on an indexer that has assigned its peaks to the rings of the cell with a narrow ds_tol (strained
         # / noisy peaks fall between rings): score counts every peak within hkl_tol, on a ring or not
-        if case["degenerate"] == "no" and case["hmax"] <= 8 and n >= 1 and not case["left"] and case["noise"] <= 0.1:
+        # (an indexer needs at least one ring below its longest g-vector: the axial reflections are, when the longest
+        #  g-vector is beyond the longest reciprocal axis)
+        astar_ = float(np.sqrt(np.diag(np.linalg.inv(gens.gram(case["cell"]))).max()))
+        if case["degenerate"] == "no" and case["hmax"] <= 8 and n >= 1 and not case["left"] and case["noise"] <= 0.1 \
+                and float(np.sqrt((gv * gv).sum(axis=1)).max()) > 1.01 * astar_:
             from ImageD11 import unitcell as ucm
             import io, contextlib
 
@@ -327,6 +331,11 @@ def check(case, rec=None):
                     r1, UB1, c1, sg1 = lsq(gv, hi, sure)
                     if not sg1 and c1 < 1e6:
                         e1, h1, s1, a1, half1 = reference(np.ascontiguousarray(r1), gv, tol)
+                        # the second pass works with a fitted matrix: a peak within 1e-9 (relative) of the tolerance can
+                        # be counted either way (also when the first pass was exact arithmetic)
+                        a1 = a1 | (np.abs(e1 - tol * tol) <= 1e-9 * tol * tol)
+                        if a1.any() and rec is not None:
+                            rec.exclude("two-pass refine: a peak within 1e-9 of the tolerance in the second pass")
                         if not a1.any() and s1.any():
                             r2, UB2, c2, sg2 = lsq(gv, h1, s1)
                             if not sg2 and c2 < 1e6:
@@ -354,6 +363,9 @@ def check(case, rec=None):
                     rg.gv = gv
                     r1s = symmetrise(r1, symname)
                     e1, h1, s1, a1, half1 = reference(np.ascontiguousarray(r1s), gv, tol)
+                    # xfab's cell <-> matrix round trip is good to about 1e-8: peaks that close to the tolerance can be
+                    # counted either way in the second pass
+                    a1 = a1 | (np.abs(e1 - tol * tol) <= 1e-6 * tol * tol)
                     if not a1.any() and s1.any():
                         r2, UB2, c2, sg2 = lsq(gv, h1, s1)
                         if not sg2 and c2 < 1e6 and np.linalg.det(r2) > 0:
@@ -374,8 +386,12 @@ def check(case, rec=None):
                                                       "least squares passes each followed by the cell constraint: %.3g "
                                                       "(cond %.3g); %s" % (symname, err, max(c1, c2), where),
                                                       fn="refinegrains.refine/sym"))
-                                if rg.npks != int(s1.sum()) or \
-                                        abs(rg.avg_drlv2 - e1[s1].mean()) > 1e-9 * (1 + e1[s1].mean()) + 1e-12:
+                                # mean squared error: a matrix good to dM (relative; the limit of fit_close, and xfab's
+                                # 1e-8 round trip) moves each hkl by 3 |h| dM and the mean of d^2 by 2 sqrt(mean) times that
+                                dM = 1e-9 * max(c1, c2) + 1e-8
+                                hm = float(np.abs(h1[s1]).max()) + 1.0
+                                mtol = 2.0 * np.sqrt(e1[s1].mean()) * 3.0 * hm * dM + (3.0 * hm * dM) ** 2 + 1e-12
+                                if rg.npks != int(s1.sum()) or abs(rg.avg_drlv2 - e1[s1].mean()) > mtol:
                                     fails.append(fail("count", "refinegrains.refine(latticesymmetry=%s): npks %s, mean "
                                                       "squared error %r; the matrix entering the second pass indexes %d "
                                                       "with %r; %s" % (symname, rg.npks, rg.avg_drlv2, int(s1.sum()),
